@@ -232,6 +232,10 @@ type c09Worker struct {
 	prog atomic.Int64
 	// plain counters owned by the goroutine, read after it has ended
 	huntsKnown, huntsOther int64
+	// values the API returned earlier and documents as copies: read again later, while the packet loop goes on
+	router     icmp_spoofer.Router
+	haveRouter bool
+	used       int64
 }
 
 func (cr *c09Run) worker() *c09Worker {
@@ -424,7 +428,14 @@ func (cr *c09Run) apiWorker(proc int, seed int64, nOps int, wg *sync.WaitGroup) 
 				}
 			})
 		case 19:
-			w.op("icmp6.FindRouter", func() { st.icmp6.FindRouter(c14Routers[r.Intn(2)].ip) })
+			w.op("icmp6.FindRouter", func() {
+				// FindRouter returns "a copy with the lock held": the caller reads every part of it without a lock, now and later
+				if w.haveRouter {
+					w.used += int64(len(fmt.Sprintf("%+v", w.router)))
+				}
+				w.router, w.haveRouter = st.icmp6.FindRouter(c14Routers[r.Intn(2)].ip), true
+				w.used += int64(len(fmt.Sprintf("%+v", w.router)))
+			})
 		case 20: // register operations for the porcupine history
 			w.op("reg.Capture", func() {
 				cr.record(regEvent{kind: "capture", mac: reg, proc: proc}, func() int { s.Capture(c09RegMACs[reg]); return 0 })
@@ -744,6 +755,7 @@ func (cr *c09Run) run() {
 	cr.wmu.Lock()
 	for _, w := range cr.workers {
 		hk += w.huntsKnown
+		c.Obs("bytes_of_router_copies_rendered_outside_the_lock", w.used)
 		ho += w.huntsOther
 	}
 	cr.wmu.Unlock()
